@@ -475,16 +475,16 @@ def toFileMap (c : Cls) (rnd : Rat → Rat) (p32 : Nat) (i : InT) (h : Hdr) (arg
                               inter := if k.hasInter then inter else h2.inter }
     some (res, h3)
 
-/-- a history of saves on ONE image: each `to_file_map(dtype=arg)` sees the header the previous one left -/
+/-- a history of saves on ONE image: each `to_file_map(dtype=arg)` sees the header the previous one left.
+    A step with a float on-disk type is not modelled (`none` result); it runs the same `finally:` block, so the header
+    it leaves is the one it found (checked against the real code by the `hist` stream, which observes the header
+    after the whole history). -/
 def saveSeq (c : Cls) (rnd : Rat → Rat) (p32 : Nat) (i : InT) (data : List Val) :
-    Hdr → List (Option DT) → Option (List (Except Err (Rat × Rat × List Int)) × Hdr)
-  | h, [] => some ([], h)
+    Hdr → List (Option DT) → List (Option (Except Err (Rat × Rat × List Int))) × Hdr
+  | h, [] => ([], h)
   | h, a :: rest =>
     match toFileMap c rnd p32 i h a data with
-    | none => none
-    | some (r, h') =>
-      match saveSeq c rnd p32 i data h' rest with
-      | none => none
-      | some (rs, hf) => some (r :: rs, hf)
+    | none => let (rs, hf) := saveSeq c rnd p32 i data h rest; (none :: rs, hf)
+    | some (r, h') => let (rs, hf) := saveSeq c rnd p32 i data h' rest; (some r :: rs, hf)
 
 end Nb.C02
